@@ -389,13 +389,13 @@ def _meta_dist(dist, o, kv):
         dist["mutate_calls"] += o.get("calls", 0)
 
 
-META_SLICE = {"C14": "rej/mutate", "C15": "rej/", "C17": "rej/selection", "C05": "rej/inproc", "C03": "rej/termination", "C04": "rej/termination"}
+META_SLICE = {"C14": "rej/mutate", "C15": "rej/", "C17": "rej/selection", "C05": "rej/inproc", "C03": "rej/termination", "C04": "rej/termination", "C06": "rej/inprocfail"}
 
 meta_stream = generic_stream(
     "META", "meta", None,
     lambda pid, acc: acc.startswith(META_SLICE.get(pid, "rej/")),
     ("kind", "input", "input_bits", "rng_seed", "calls", "kept", "n", "pressure", "pressure_bits", "samples", "counts",
-     "problem", "nc", "budget", "order_seed", "f_init", "f_best", "best", "completed", "hardware_threads", "peak", "started", "ok", "wall_ms", "criteria", "result"),
+     "problem", "nc", "budget", "order_seed", "f_init", "f_best", "best", "completed", "hardware_threads", "peak", "started", "ok", "wall_ms", "criteria", "result", "still_executing_at_return"),
     lambda o, kv: True,
     _meta_dist)
 
@@ -573,7 +573,11 @@ PROPS = {
                              {"kind": "meta", "name": "inproc", "profile": "inproc", "count": {"quick": 24, "thorough": 400}, "salt": 51}],
                      None, ["threaded in-process path: sync_launch::launch with in_process_computation and a rendezvous objective function (num_concurrent 1, small, = hardware threads, hardware threads + 3, twice the hardware threads): the peak number of calls in progress equals min(num_concurrent, budget) and never exceeds num_concurrent; the thread-pool size is not modelled",
                             "child-process path: the cli stream of C07/C16 (pids of concurrently running children are not compared)"]),
-    "C06": _run_prop("C06", [{"kind": "run", "name": "fail", "profile": "fail", "count": {"quick": 320, "thorough": 4000}, "salt": 6}]),
+    "C06": _run_prop("C06", [{"kind": "run", "name": "fail", "profile": "fail", "count": {"quick": 320, "thorough": 4000}, "salt": 6},
+                             {"kind": "cli", "name": "results", "profile": "results", "count": {"quick": 32, "thorough": 300}, "salt": 61},
+                             {"kind": "meta", "name": "inprocfail", "profile": "inprocfail", "count": {"quick": 8, "thorough": 60}, "salt": 62}],
+                     None, ["child-process failures through the binary (non-zero exit after a valid result, killed child, unparsable output): cli stream profile results",
+                            "threaded in-process evaluation: when a failing run returns, no call of the objective function is still executing (meta stream profile inprocfail)"]),
     "C08": _run_prop("C08", [{"kind": "run", "name": "reeval", "profile": "reeval", "count": {"quick": 160, "thorough": 2000}, "salt": 8},
                              {"kind": "run", "name": "mixed", "profile": "short", "count": {"quick": 160, "thorough": 2000}, "salt": 88},
                              {"kind": "algo", "name": "algo", "profile": "mixed", "count": {"quick": 96, "thorough": 1600}, "salt": 89}],
@@ -588,8 +592,12 @@ PROPS = {
     "C12": _ops_prop("C12", [{"kind": "ops", "name": "mixed", "profile": "mixed", "count": {"quick": 480, "thorough": 8000}, "salt": 12}]),
     "C13": _ops_prop("C13", [{"kind": "ops", "name": "mixed", "profile": "mixed", "count": {"quick": 320, "thorough": 6000}, "salt": 13},
                              {"kind": "ops", "name": "p1", "profile": "p1", "count": {"quick": 160, "thorough": 2000}, "salt": 131},
-                             {"kind": "ops", "name": "p0", "profile": "p0", "count": {"quick": 96, "thorough": 1000}, "salt": 130}]),
+                             {"kind": "ops", "name": "p0", "profile": "p0", "count": {"quick": 96, "thorough": 1000}, "salt": 130},
+                             {"kind": "ops", "name": "p0big", "profile": "p0big", "count": {"quick": 16, "thorough": 300}, "salt": 132},
+                             {"kind": "ops", "name": "p1long", "profile": "p1long", "count": {"quick": 48, "thorough": 600}, "salt": 133},
+                             {"kind": "ops", "name": "long", "profile": "long", "count": {"quick": 32, "thorough": 600}, "salt": 134}]),
     "C17": _ops_prop("C17", [{"kind": "ops", "name": "p1", "profile": "p1", "count": {"quick": 320, "thorough": 6000}, "salt": 17},
+                             {"kind": "ops", "name": "p1long", "profile": "p1long", "count": {"quick": 48, "thorough": 600}, "salt": 173},
                              {"kind": "meta", "name": "selection", "profile": "mixed", "count": {"quick": 120, "thorough": 3000}, "salt": 171},
                              {"kind": "meta", "name": "bench", "profile": "bench", "count": {"quick": 64, "thorough": 1600}, "salt": 172}],
                      tested=["benchmark battery (8 known-optimum problems x concurrency {1,4} x completion orders chosen by the harness, thresholds in MetaCheck.bench_ok) and 'within a few attempts' for ints: statements about pseudo-random trajectories, tested only; for reals the rule 'a lively interior real changes at probability 1' is checked on every p=1 mutation",
@@ -611,9 +619,10 @@ PROPS = {
     "C11": {
         "propfile": "theories/Properties/C11.v",
         "coq_targets": ["theories/Properties/C11.vo"],
-        "checkers": ["GuessCheck"],
+        "checkers": ["GuessCheck", "RunCheck", "CliCheck"],
         "streams": [{"kind": "guess", "name": "mixed", "profile": "mixed", "count": {"quick": 960, "thorough": 16000}, "salt": 11},
-                    {"kind": "run", "name": "guesstwin", "profile": "twin", "count": {"quick": 64, "thorough": 1000}, "salt": 111}],
+                    {"kind": "run", "name": "guesstwin", "profile": "twin", "count": {"quick": 64, "thorough": 1000}, "salt": 111},
+                    {"kind": "cli", "name": "guess", "profile": "guess", "count": {"quick": 32, "thorough": 300}, "salt": 112}],
         "assumptions": [
             "decided at the serde_json::Value level (json_ok: floats finite, integers in u64/i64 range); JSON text <-> tree is serde_json's",
             "objects are BTreeMaps: modelled as association lists compared as maps",
